@@ -2,6 +2,7 @@ package props
 
 import (
 	"fmt"
+	"github.com/ElrondNetwork/elrond-vm-common/parsers"
 	"math/big"
 	"runtime"
 	"sort"
@@ -31,7 +32,7 @@ import (
 func init() {
 	harness.Register(&harness.Property{
 		ID: "C19", Level: "exploration", NeedsRace: true,
-		Rule: "cases = recorded concurrent histories (2-16 goroutines, 16-64 operations, random mixes, injected yields) of functionContainer {Get, Add, Replace, Remove, Len, Keys}, MutexMap {Get, Insert, Set, Remove, Len, Keys, Values}, Flag, Counter, Int64/Uint32/Uint64/String, each checked with porcupine against a sequential specification (unique values, per-key partition when no Len/Keys is involved), lost-update counts; a stress in which 8-16 goroutines execute all 23 functions through ONE factory-built container while one goroutine alternates two gas schedules through factory.GasScheduleChange, one fires EpochConfirmed and readers poll IsActive, under the Go race detector; every execution of a two-component function must be charged wholly by one of the two schedules. Non-trivial = history with at least two overlapping operations / priced execution; distinct = distinct histories (hash of the operation sequence with results)",
+		Rule: "cases = recorded concurrent histories (2-16 goroutines, 16-64 operations, random mixes, injected yields) of functionContainer {Get, Add, Replace, Remove, Len, Keys}, MutexMap {Get, Insert, Set, Remove, Len, Keys, Values}, Flag, Counter, Int64/Uint32/Uint64/String, each checked with porcupine against a sequential specification (unique values, per-key partition when no Len/Keys is involved), lost-update counts; a stress in which 8-16 goroutines execute all 23 functions through ONE factory-built container while one goroutine alternates two gas schedules through factory.GasScheduleChange, one fires EpochConfirmed and readers poll IsActive, under the Go race detector; every execution of a two-component function must be charged wholly by one of the two schedules. Non-trivial = history with at least two overlapping operations / priced execution; distinct = distinct histories (hash of the operation sequence with results) + steady flag histories (every write re-asserts the current value); destination legs in the stress; one ESDT-transfer parser and one call-arguments parser shared by 8 goroutines, results compared with those computed alone.",
 		Assumptions: []string{"Go race detector and porcupine v1.3.0 are the deciding tools; sampled schedules only", "concurrent GasScheduleChange with itself, with SetPayableHandler or with container construction is not claimed by the property and not run",
 			"call/return stamps come from one monotonic clock at the client boundary; the recorder's state is per goroutine and merged after the join"},
 		Batches:          tierN(8, 24),
@@ -439,6 +440,38 @@ func runC19(c *harness.Ctx) {
 		switch i % 6 {
 		case 0:
 			var f vmatomic.Flag
+			if steady := (i / 6) % 3; steady != 0 {
+				// steady histories: every write re-asserts the value the flag already has (repeated
+				// notifications of an epoch on the same side of the activation epoch): no reader
+				// may ever see the other value
+				var pre []porcupine.Operation
+				if steady == 1 {
+					t0 := now()
+					f.Set()
+					pre = append(pre, porcupine.Operation{ClientId: 99, Input: regIn{Op: "flagset"}, Call: t0, Output: regOut{B: true}, Return: now()})
+				}
+				h := runHistory(G2, func(g int, rec *recorder, rg *harness.Rand) {
+					for k := 0; k < per2*3; k++ {
+						switch {
+						case g%2 == 0 && steady == 1 && rg.Bool():
+							rec.do(regIn{Op: "flagset"}, func() interface{} { f.Toggle(true); return regOut{B: true} })
+						case g%2 == 0 && steady == 1:
+							rec.do(regIn{Op: "flagset"}, func() interface{} { return regOut{B: f.Set()} })
+						case g%2 == 0 && rg.Bool():
+							rec.do(regIn{Op: "flagunset"}, func() interface{} { f.Toggle(false); return regOut{} })
+						case g%2 == 0:
+							rec.do(regIn{Op: "flagunset"}, func() interface{} { f.Unset(); return regOut{} })
+						default:
+							rec.do(regIn{Op: "isset"}, func() interface{} { return regOut{B: f.IsSet()} })
+						}
+						if rg.Chance(30) {
+							yield(rg)
+						}
+					}
+				}, rh)
+				judge(R, "Flag-steady", flagModel(), append(pre, h...))
+				break
+			}
 			h := runHistory(G2, func(g int, rec *recorder, rg *harness.Rand) {
 				for k := 0; k < per2; k++ {
 					switch rg.Intn(5) {
@@ -643,7 +676,90 @@ func runC19(c *harness.Ctx) {
 		}
 		R.CoverN("C19/bounded-range-reads", reads)
 	}
+	c19SharedParsers(c)
 	c19Stress(c)
+}
+
+// c19SharedParsers: the node keeps ONE ESDT-transfer parser and ONE call-arguments parser and uses
+// them from every processing goroutine. Several goroutines parse different destination-form
+// messages through the same parser objects; every result must equal the one computed alone.
+func c19SharedParsers(c *harness.Ctx) {
+	R := c.R
+	xp, _ := parsers.NewESDTTransferParser(world.PlainCodec{})
+	cp := parsers.NewCallArgsParser()
+	G := 8
+	type job struct {
+		fn      string
+		snd     []byte
+		rcv     []byte
+		args    [][]byte
+		want    string
+		dataStr string
+	}
+	show := func(p *vmcommon.ParsedESDTTransfers, err error) string {
+		if err != nil || p == nil {
+			return "err"
+		}
+		var sb strings.Builder
+		fmt.Fprintf(&sb, "%x|%s|%x|", p.RcvAddr, p.CallFunction, p.CallArgs)
+		for _, t := range p.ESDTTransfers {
+			fmt.Fprintf(&sb, "(%s,%d,%v,%d)", t.ESDTTokenName, t.ESDTTokenNonce, t.ESDTValue, t.ESDTTokenType)
+		}
+		return sb.String()
+	}
+	jobs := make([][]job, G)
+	for g := 0; g < G; g++ {
+		for k := 0; k < 6; k++ {
+			qty := int64(1000*g + k + 1)
+			pay := func(n uint64, q int64) []byte {
+				return refcodec.EncodeToken(&refcodec.Token{Type: 1, Value: big.NewInt(q), HasValue: true, Meta: &refcodec.MetaData{Nonce: n, Name: []byte(fmt.Sprintf("n%d", g)), Hash: []byte("h"), URIs: [][]byte{[]byte(fmt.Sprintf("u%d-%d", g, k))}}})
+			}
+			snd, rcv := gen.UserAddr(g, 0), gen.UserAddr(g+20, 1)
+			var j job
+			switch k % 3 {
+			case 0:
+				j = job{fn: FMulti, snd: snd, rcv: rcv, args: [][]byte{gen.Big(3), []byte("SFTA-112233"), gen.U64(uint64(g + 1)), pay(uint64(g+1), qty), []byte("FUNA-a1b2c3"), {}, gen.Big(qty + 7), []byte("NFTA-445566"), gen.U64(uint64(k + 1)), pay(uint64(k+1), qty+1), []byte("fn"), {byte(g)}}}
+			case 1:
+				j = job{fn: FNFTXfer, snd: snd, rcv: rcv, args: [][]byte{[]byte("SFTA-112233"), gen.U64(uint64(g + 1)), gen.Big(qty), pay(uint64(g+1), qty)}}
+			default:
+				j = job{fn: FTransfer, snd: snd, rcv: rcv, args: [][]byte{[]byte("FUNA-a1b2c3"), gen.Big(qty), []byte("fn"), {byte(k)}, {}}}
+			}
+			j.want = show(xp.ParseESDTTransfers(j.snd, j.rcv, j.fn, j.args))
+			j.dataStr = node.BuildData(j.fn, j.args)
+			jobs[g] = append(jobs[g], j)
+		}
+	}
+	rounds := c.Scale(300, 3000)
+	var wg sync.WaitGroup
+	var parsed int64
+	var bad atomic.Value
+	for g := 0; g < G; g++ {
+		wg.Add(1)
+		go func(g int) {
+			defer wg.Done()
+			defer func() {
+				if r := recover(); r != nil {
+					bad.Store(fmt.Sprintf("panic in a concurrent parse: %v", r))
+				}
+			}()
+			for i := 0; i < rounds; i++ {
+				j := jobs[g][i%len(jobs[g])]
+				if got := show(xp.ParseESDTTransfers(j.snd, j.rcv, j.fn, j.args)); got != j.want {
+					bad.Store(fmt.Sprintf("ParseESDTTransfers of %s gives %s while other goroutines parse other messages, alone it gives %s", truncate(j.dataStr, 200), got, j.want))
+				}
+				if f, a, err := cp.ParseData(j.dataStr); err != nil || f != j.fn || !argsEqual(a, j.args) {
+					bad.Store("ParseData of " + truncate(j.dataStr, 200) + " differs while other goroutines parse other data")
+				}
+				atomic.AddInt64(&parsed, 2)
+			}
+		}(g)
+	}
+	wg.Wait()
+	if msg, ok := bad.Load().(string); ok {
+		R.Violate("C19:shared-parser", msg, nil)
+	}
+	R.CoverN("C19/shared-parser-parses", parsed)
+	R.Eval(int(parsed))
 }
 
 func flagModel() porcupine.Model {
@@ -772,6 +888,7 @@ func c19Stress(c *harness.Ctx) {
 			k := sh.Get(gen.ContractAddr(30+g, 0))
 			rg := c.Rand("stress").Fork(uint64(g))
 			seq := 0
+			var lastPayload, t2 []byte // payload of the last cross-shard NFT message this goroutine emitted
 			priced := func(name string, gas uint64, out *vmcommon.VMOutput, err error, a, b uint64) {
 				if err != nil || out == nil {
 					return
@@ -792,7 +909,7 @@ func c19Stress(c *harness.Ctx) {
 				seq++
 				t := tokens[rg.Intn(len(tokens))]
 				gas := uint64(1) << 50
-				switch rg.Intn(25) {
+				switch rg.Intn(26) {
 				case 0:
 					call(FTransfer, me, peer, mkIn(a.me, a.peer, gas, t, gen.Big(1)))
 				case 1:
@@ -837,6 +954,7 @@ func c19Stress(c *harness.Ctx) {
 							for _, ot := range oa.OutputTransfers {
 								if _, args, e := node.Tokenize(string(ot.Data)); e == nil && len(args) >= 4 {
 									n = uint64(len(args[3]))
+									lastPayload, t2 = args[3], t
 								}
 							}
 						}
@@ -900,6 +1018,20 @@ func c19Stress(c *harness.Ctx) {
 				case 22:
 					call(FHandOver, nil, me, mkIn(gen.SysSC, a.me, 0, t, a.peer))
 					call(FHandOver, nil, peer, mkIn(gen.SysSC, a.peer, 0, t, a.me))
+				case 24: // destination legs (no sender account): they read the prices too
+					call(FTransfer, nil, peer, mkIn(a.me, a.peer, gas, t, gen.Big(1)))
+					call(FTransfer, nil, k, mkIn(a.me, k.Addr, gas, t, gen.Big(1), []byte("fn"), []byte{1}))
+					in := mkIn(a.me, k.Addr, 10, t, gen.Big(1), []byte("fn"))
+					in.CallType = vmcommon.AsynchronousCallBack
+					call(FTransfer, nil, k, in)
+					call(FChgOwner, nil, k, mkIn(a.me, k.Addr, gas, a.me))
+					call(FClaim, nil, k, mkIn(a.me, k.Addr, gas))
+					k.DevReward = big.NewInt(1 << 40)
+					if len(lastPayload) > 0 {
+						call(FNFTXfer, nil, peer, mkIn(a.me, a.peer, gas, t2, gen.U64(1), gen.Big(1), lastPayload))
+						call(FNFTXfer, nil, k, mkIn(a.me, k.Addr, gas, t2, gen.U64(1), gen.Big(1), lastPayload, []byte("fn")))
+						call(FMulti, nil, peer, mkIn(a.me, a.peer, gas, gen.Big(2), t2, []byte{0}, gen.Big(1), t2, gen.U64(1), lastPayload))
+					}
 				default:
 					call(FWipe, nil, peer, mkIn(gen.SysSC, a.peer, 0, []byte("NOT-HELD")))
 				}
